@@ -1,6 +1,7 @@
 package logqlengine
 
 import (
+	"encoding/binary"
 	"maps"
 	"regexp"
 	"slices"
@@ -77,9 +78,17 @@ func (a *aggregatedLabels) Without(labels ...logql.Label) logqlmetric.Aggregated
 // Key computes grouping key from set of labels.
 func (a *aggregatedLabels) Key() logqlmetric.GroupingKey {
 	h := xxhash.New()
+	// Length-prefix every name and value, so that different label sets
+	// (e.g. a="bc" and ab="c") never hash the same byte sequence.
+	var size [8]byte
+	write := func(s string) {
+		binary.LittleEndian.PutUint64(size[:], uint64(len(s)))
+		_, _ = h.Write(size[:])
+		_, _ = h.WriteString(s)
+	}
 	a.forEach(func(k, v string) {
-		_, _ = h.WriteString(k)
-		_, _ = h.WriteString(v)
+		write(k)
+		write(v)
 	})
 	return h.Sum64()
 }
